@@ -196,9 +196,7 @@ pub const STAGES: &[Stage] = &[Stage { name: "roundtrip", f: stage_main }, Stage
 
 pub fn run(rc: &mut RunCtx) {
     rc.run_pt(STAGES[0], rc.pick(640_000, 3_000_000), (96, 640));
-    if !rc.quick() {
-        rc.run_pt(STAGES[1], 1_500, (96, 400));
-    }
+    rc.run_pt(STAGES[1], rc.pick(400, 1_500), (96, 400));
     for l in ["unknown_size", "boundary_len", "explicit_width", "has_full", "raw_tags", "spec_macro_derived", "depth3plus", "global_element", "reserved_width_probe", "leaves_through_write_raw"] {
         rc.require_label("roundtrip", l, 10_000);
     }
